@@ -40,8 +40,9 @@ TABLE = {
            ("KeystoneParse.v", ["parse_links_tree"])]),
  "C07": dict(
    intro="C07 -- an entity reference is equivalent to its replacement text written in place.\n   Machine level: processing pre ++ mid ++ post inline equals processing pre, then mid as an entity value\n   (its own stream, entity mode), then post -- for attribute values and for character data -- provided no\n   CR LF pair is split by a cut (XML 2.11 normalises line ends per entity; the two *_split_crlf lemmas show\n   the proviso is necessary).  On the model: at an entity reference the loops really run the replacement\n   text in place (norm_attr_entity_step, text_loop_entity_step); the first declaration of a name wins.\n   Whole documents on the fragment of Spec/CstEnt.v (the CstText fragment plus an internal DTD subset declaring general\n   entities, references in content and in attribute values, nested up to the documented limits, re-declarations):\n   sem c is DEFINED as the meaning of the document with every reference replaced by its (first-declared) replacement\n   text, computed on the abstract syntax; parse (render c) yields exactly that (parse_render_sem_ent_partial), so two\n   documents that differ only in what is routed through entities (hoist_insensitive_partial), and a document and its\n   fully inlined DOCTYPE-free version (inlined_equiv_partial), give identical trees.  The\n   unrestricted theorems cover entities whose replacement text contains markup (elements with attributes, comments, PIs,\n   CDATA, text, further references), with text merging across entity boundaries; their size hypotheses are on the meaning\n   (an entity can multiply nodes).  The `_partial` variants (character-data entities) keep the input-length hypothesis.\n   Excluded by wf_doc, each with its reason in Spec/CstEnt.v: the CR LF proviso, D15 (the known finding), character\n   references to TAB / LF / CR / '&' / '<' inside entity values (declaration-time vs use-time reading).\n   The same WITH NAMESPACES AND UNICODE (Spec/CstFullS4.v, on the CstFull frame): entity values are character data or\n   items with qualified names, namespace declarations and attributes; the meaning inlines first and resolves namespaces\n   afterwards, i.e. in the scope of the place of REFERENCE -- parse_render_sem_full_s4, hoist_insensitive_full_s4.\n   With allow_dtd = false the same rendering gives Err DtdDetected (dtd_refused, markup entities included).",
-   imports=["From RX.Spec Require Import Text.", "From RX.Spec Require Cst CstText CstEnt.", "From RX.Proofs Require Import TextMachine HoistProofs RejectProofs CstMain CstTextSem CstEntSem CstEntDoc CstEntMain CstEntCMain.", "From RX.Spec Require CstFull CstFullS4.", "From RX.Proofs Require CstNsView CstFullS4Main."],
-   groups=[("CstFullS4Main.v", ["parse_render_sem_full_s4", "hoist_insensitive_full_s4"], "Import RX.Spec.CstFull. Import RX.Spec.CstFullS4. Import RX.Proofs.CstNsView. Import RX.Proofs.CstFullS4Main."),
+   imports=["From RX.Spec Require Import Text.", "From RX.Spec Require Cst CstText CstEnt.", "From RX.Proofs Require Import TextMachine HoistProofs RejectProofs CstMain CstTextSem CstEntSem CstEntDoc CstEntMain CstEntCMain.", "From RX.Spec Require CstFull CstFullS4.", "From RX.Proofs Require CstNsView CstFullS4Main.", "From RX.Spec Require CstFull CstFullS4 CstFullS6.", "From RX.Proofs Require CstNsView CstFullS6Main CstFullRejSem CstFullS6Sanity KnownFindingsD15."],
+   groups=[("KnownFindingsD15.v", ["d15_refuted", "d15_outside_class", "hoist_outside_d15", "ninline_extends"], "Import RX.Spec.CstFull. Import RX.Spec.CstFullS4. Import RX.Spec.CstFullS6. Import RX.Proofs.CstNsView. Import RX.Proofs.CstFullS6Main. Import RX.Proofs.CstFullRejSem. Import RX.Proofs.CstFullS6Sanity. Import RX.Proofs.KnownFindingsD15."),
+           ("CstFullS4Main.v", ["parse_render_sem_full_s4", "hoist_insensitive_full_s4"], "Import RX.Spec.CstFull. Import RX.Spec.CstFullS4. Import RX.Proofs.CstNsView. Import RX.Proofs.CstFullS4Main."),
            ("CstEntCMain.v", ["parse_render_sem_ent", "hoist_insensitive", "inlined_equiv"], "Module E := CstEnt."),
            ("CstEntMain.v", ["parse_render_sem_ent_partial", "hoist_insensitive_partial", "inlined_equiv_partial", "dtd_refused"]),
            ("HoistProofs.v", ["push_attr_chunks_app", "push_attr_lits_depth", "attr_hoist_equiv", "attr_hoist_normalise", "norm_attr_entity_step",
@@ -50,7 +51,7 @@ TABLE = {
            ("RejectProofs.v", ["find_entity_first", "ok_refs_defined_first"], "Local Notation token := Tokenizer.token.")]),
  "C08": dict(
    intro="C08 -- ill-formed documents are rejected.  (1) the three character classes are the Fifth Edition\n   productions for every scalar value (tables regenerated from the source on every run);\n   (2) local rejection theorems, 'accepted implies constraint': comment bodies, ']]>' in text, misplaced\n   declaration, '<' in attribute values, every consumed character is a Char, end tags match the open\n   element and cannot close an element opened outside the current entity, reserved prefixes and URIs,\n   entity references are declared (first declaration wins), and the document-level token shape: only\n   comments / PIs (and entity declarations) before the root, at most one root element, only\n   comments / PIs after it.  (3) Soundness against the grammar on the byte fragment that Spec/Cst.v covers\n   (in_fragment, Proofs/CstSound.v: printable ASCII / TAB / LF, no '&', no ':', no '<!D' '<![' '<?xml' 'xmlns';\n   attrs_raw: no attribute value was normalised): every ACCEPTED input is the rendering of a well-formed abstract\n   document (parse_sound_fragment) -- the parser accepts nothing outside the grammar there -- and its tree is that\n   document's meaning (parse_sound_and_complete).  (4) Truncation: for EVERY accepted document (DOCTYPE and entity expansion included) and\n   every cut (on a character boundary) before the end of its root element, the prefix is rejected\n   (truncation_rejected; root_element_end d and firstn_N are defined in Proofs/TruncMain.v).  (5) Soundness over\n   Unicode (in_fragment_u, Proofs/CstSoundU.v: valid UTF-8, no CR, '&', ':', '<!D', '<![', '<?xml', 'xmlns', no leading\n   BOM): every accepted input is the rendering of a well-formed document of Spec/CstU.v (parse_sound_fragment_u).\n   (6) Soundness with references and CDATA (in_fragment_t, Proofs/CstSoundT.v: printable ASCII / TAB / LF, '&' and\n   '<![' allowed, numeric references denote scalar values -- the documented U+FFFD leniency excluded): every accepted input\n   is the rendering of a well-formed document of Spec/CstText.v, with NO condition on the result (parse_sound_fragment_t).\n   (7) Namespace constraints at document level (Spec/CstNs.v): a syntactically well-formed document that violates one of\n   N1-N7 (undeclared prefix, duplicate declaration, duplicate attribute by expanded name, misuse of xml / xmlns prefixes\n   and URIs) is rejected with one of the namespace error variants (ns_violation_rejected).  (8) Soundness WITH NAMESPACES\n   (in_fragment_n, Proofs/CstSoundN.v: valid UTF-8, qualified names and xmlns declarations allowed, references and CDATA\n   allowed; no CR, DOCTYPE, XML declaration, BOM; numeric references scalar; no leading-colon names and no colon in PI\n   targets -- two leniencies, each with its Example): every accepted input is the rendering of a well-formed document of\n   Spec/CstFull.v stage S2, hence satisfies N1-N7 on normalised URIs; the resource bounds of the completeness theorem\n   follow from acceptance (parse_sound_fragment_n_res), so the parsed tree IS the document's meaning\n   (parse_sound_and_complete_n).  (9) Soundness WITH THE PROLOG AND ENTITIES (in_fragment_p, Proofs/CstSoundP.v: BOM, XML\n   declaration, DOCTYPE with every kind of declaration, character-data general entities declared AND used; conditions P1-P8\n   on the bytes, each leniency with its Example): every accepted input is the rendering of a well-formed document of\n   Spec/CstFullS5.v (parse_sound_fragment_p) -- this covers misplaced / repeated XML declarations, undefined references,\n   recursion, '<' reaching an attribute value through an entity, and the DTD syntax.",
-   imports=["From RX.Spec Require Chars.", "From RX.Spec Require Cst.", "From RX.Proofs Require Import CharTablesProofs RejectProofs WfParseTok WfParseChars WfParse CstSound CstSoundDoc CstSoundCor TruncMain TruncDtdMain CstSoundU CstSoundUDoc CstSoundUCor CstSoundT CstSoundTDoc CstSoundTCor NsRejDefs NsRejBuild NsRejMain CstNsView CstFullMain CstSoundN CstSoundNDoc CstSoundNCor.", "From RX.Spec Require CstU CstText CstNs CstFull CstFullS5.", "From RX.Proofs Require CstSoundP CstSoundPRDoc CstSoundPRCor.", "From RX.Spec Require CstFullS4 CstFullS6.", "From RX.Proofs Require CstSound6P CstSound6 CstSound6U CstSound6uCor CstFullS6Main CstFullRejSem CstFullRejTrace CstFullRejDoc CstFullRejMain CstFullNsRejMain."],
+   imports=["From RX.Spec Require Chars.", "From RX.Spec Require Cst.", "From RX.Proofs Require Import CharTablesProofs RejectProofs WfParseTok WfParseChars WfParse CstSound CstSoundDoc CstSoundCor TruncMain TruncDtdMain CstSoundU CstSoundUDoc CstSoundUCor CstSoundT CstSoundTDoc CstSoundTCor NsRejDefs NsRejBuild NsRejMain CstNsView CstFullMain CstSoundN CstSoundNDoc CstSoundNCor.", "From RX.Spec Require CstU CstText CstNs CstFull CstFullS5.", "From RX.Proofs Require CstSoundP CstSoundPRDoc CstSoundPRCor.", "From RX.Spec Require CstFullS4 CstFullS6.", "From RX.Proofs Require KnownFindingsD21 CstSound6P CstSound6 CstSound6U CstSound6uCor CstFullS6Main CstFullRejSem CstFullRejTrace CstFullRejDoc CstFullRejMain CstFullNsRejMain."],
    groups=[("CharTablesProofs.v", ["char_tables_conform", "byte_tables_conform", "byte_space_conform", "byte_char_agree"]),
            ("RejectProofs.v", ["ok_comment_body", "ok_text_no_cdata_end", "ok_pi_not_declaration", "ok_no_lt_in_attr", "skip_chars_only_chars",
                                "skip_chars_only_chars_text", "consume_chars_only_chars", "ok_tags_balanced", "ok_reserved_names",
@@ -67,15 +68,17 @@ TABLE = {
            ("CstSoundPRCor.v", ["parse_sound_and_complete_p"], "Import RX.Spec.CstFull. Import RX.Spec.CstFullS5. Import RX.Proofs.CstNsView. Import RX.Proofs.CstSoundP. Import RX.Proofs.CstSoundPRCor."),
            ("CstSound6P.v", ["parse_sound_fragment_6_on_p", "parse_sound_and_complete_6_on_p"], "Import RX.Spec.CstFull. Import RX.Spec.CstFullS5. Import RX.Spec.CstFullS6. Import RX.Proofs.CstNsView. Import RX.Proofs.CstSoundP. Import RX.Proofs.CstSound6P."),
            ("CstSound6uCor.v", ["parse_sound_fragment_6u", "parse_sound_and_complete_6u"], "Import RX.Spec.CstFull. Import RX.Spec.CstFullS5. Import RX.Spec.CstFullS6. Import RX.Proofs.CstNsView. Import RX.Proofs.CstSoundP. Import RX.Proofs.CstSound6. Import RX.Proofs.CstSound6U. Import RX.Proofs.CstSound6uCor."),
+           ("KnownFindingsD21.v", ["d21_refuted", "d21_wf_for_spec", "d21_outside_class", "d21_outside_class_variant"], "Import RX.Spec.CstNs. Import RX.Proofs.NsRejDefs. Import RX.Proofs.NsRejBuild. Import RX.Proofs.NsRejMain. Import RX.Proofs.KnownFindingsD21."),
            ("NsRejMain.v", ["ns_violation_rejected"], "Import CstNs."),
            ("CstFullNsRejMain.v", ["ns_violation_rejected_full_s6"], "Import RX.Spec.CstFull. Import RX.Spec.CstFullS4. Import RX.Spec.CstFullS6. Import RX.Proofs.CstNsView. Import RX.Proofs.CstFullS6Main. Import RX.Proofs.NsRejDefs. Import RX.Proofs.NsRejBuild. Import RX.Proofs.CstFullRejSem. Import RX.Proofs.CstFullRejTrace. Import RX.Proofs.CstFullRejDoc. Import RX.Proofs.CstFullRejMain. Import RX.Proofs.CstFullNsRejMain.")]),
  "C03": dict(
    intro="C03 -- elements, comments and PIs mirror the document's logical structure.  Lexer post-conditions\n   (with a token recorder as callback): a comment token's text is exactly the source between '<!--' and\n   '-->'; a PI's target and value are the source strings (value without leading whitespace, None when\n   empty); CDATA / text tokens are their source slices; the DOCTYPE and the prolog / epilog deliver only\n   comments, PIs (and entity declarations); a start tag delivers ElementStart, attributes, one ElementEnd.\n   The XML declaration has no callback at all.  Document-level token shape: Proofs/RejectProofs.v.\n   Completeness on the fragment of Spec/Cst.v (ASCII names and content, no DOCTYPE, references, namespaces, CR): every\n   rendering of a well-formed abstract document -- with any layout choices: whitespace in tags, quote style,\n   empty-element syntax, prolog / epilog comments and PIs -- parses to exactly its meaning (view = sem:\n   kinds, names, attributes in order with values, comment text, PI target / value, text, children counts), so two\n   renderings with the same meaning give the same tree (layout_insensitive).  view is defined in Proofs/CstMain.v.\n   The same over Unicode (Spec/CstU.v: names, values, text, comments, PIs are lists of scalar values in the 5th-edition\n   Name / Char classes, rendered in UTF-8): parse_render_sem_u, layout_insensitive_u, render_valid_utf8.\n   The largest fragment (Spec/CstFull.v stage S3 = Unicode + namespaces + pieces + character-data entities, pinned under\n   C06) extended by the whole PROLOG (Spec/CstFullS5.v): byte order mark, XML declaration, DOCTYPE with external id and an\n   internal subset holding every kind of declaration (general / parameter / external / unparsed entities, ELEMENT /\n   ATTLIST / NOTATION, comments and PIs -- which become nodes under the Root), CR in markup whitespace:\n   parse_render_sem_full_s5 and prolog_insensitive_full_s5 (same meaning => same tree, whatever the prolog).\n   THE CAPSTONE (Spec/CstFullS6.v): S4's entities (character data or markup with qualified names, resolved at the place\n   of reference) inside S5's prolog, CR in markup whitespace everywhere -- ONE statement for the whole supported subset:\n   parse_render_sem_full_s6; same meaning => same tree whatever the distribution over entities, the prolog and the layout\n   (hoist_prolog_insensitive_full_s6); S4 and S5 embed with the same rendering and meaning (s4_in_s6, s5_in_s6), hence\n   so do S1..S3.  What S6 still excludes is listed in the spec files: CR inside comment / PI bodies (admitted by S7), '%' and character references to TAB / LF / CR / '&' / '<' inside entity literals, colons\n   in DOCTYPE / entity names, the CR LF proviso and D15.",
-   imports=["From RX.Spec Require Cst.", "From RX.Spec Require CstU CstNs CstFull CstFullS5.", "From RX.Proofs Require Import LexerProofs RejectProofs CstMain CstUMain.", "From RX.Proofs Require CstNsView CstFullMain CstFullS5 CstFullS6Main CstFullS6Embed5.", "From RX.Spec Require CstFullS4 CstFullS6.", "From RX.Proofs Require ApiViewAcc ApiView ApiViewProofs ApiViewCapstone.", "From RX.Spec Require CstFullS7.", "From RX.Proofs Require CstFullS7Main."],
+   imports=["From RX.Spec Require Cst.", "From RX.Spec Require CstU CstNs CstFull CstFullS5.", "From RX.Proofs Require Import LexerProofs RejectProofs CstMain CstUMain.", "From RX.Proofs Require CstNsView CstFullMain CstFullS5 CstFullS6Main CstFullS6Embed5.", "From RX.Spec Require CstFullS4 CstFullS6.", "From RX.Proofs Require ApiViewAcc ApiView ApiViewProofs ApiViewCapstone.", "From RX.Spec Require CstFullS7 CstFullS8.", "From RX.Proofs Require CstFullS7Main CstFullS8Main."],
    groups=[("CstMain.v", ["parse_render_sem", "layout_insensitive"]),
            ("ApiViewCapstone.v", ["parse_render_sem_full_s6_api", "hoist_prolog_insensitive_full_s6_api"], "Import RX.Spec.CstFull. Import RX.Spec.CstFullS6. Import RX.Proofs.ApiView. Import RX.Proofs.ApiViewProofs. Import RX.Proofs.ApiViewCapstone."),
            ("ApiViewProofs.v", ["api_view_agrees", "api_view_defined"], "Import RX.Proofs.ApiViewAcc. Import RX.Proofs.ApiView. Import RX.Proofs.ApiViewProofs."),
            ("CstFullS7Main.v", ["parse_render_sem_full_s7", "parse_render_sem_full_s7_api", "s6_in_s7"], "Import RX.Spec.CstFull. Import RX.Spec.CstFullS6. Import RX.Spec.CstFullS7. Import RX.Proofs.CstNsView. Import RX.Proofs.ApiView. Import RX.Proofs.CstFullS7Main."),
+           ("CstFullS8Main.v", ["parse_render_sem_full_s8", "s7_in_s8"], "Import RX.Spec.CstFull. Import RX.Spec.CstFullS6. Import RX.Spec.CstFullS7. Import RX.Spec.CstFullS8. Import RX.Proofs.CstNsView. Import RX.Proofs.ApiView. Import RX.Proofs.CstFullS8Main."),
            ("CstUMain.v", ["render_valid_utf8", "parse_render_sem_u", "layout_insensitive_u"]),
            ("CstFullS6Main.v", ["parse_render_sem_full_s6", "hoist_prolog_insensitive_full_s6", "s4_in_s6"], "Import RX.Spec.CstFull. Import RX.Spec.CstFullS4. Import RX.Spec.CstFullS6. Import RX.Proofs.CstNsView. Import RX.Proofs.CstFullS6Main."),
            ("CstFullS6Embed5.v", ["s5_in_s6"], "Import RX.Spec.CstFull. Import RX.Spec.CstFullS5. Import RX.Spec.CstFullS6. Import RX.Proofs.CstFullS6Main. Import RX.Proofs.CstFullS6Embed5."),
@@ -128,8 +131,9 @@ TABLE = {
            ("ErrDisplayProofs.v", ["display_table_complete", "display_nonempty"], "Import RX.GeneratedDisplay. Import RX.Model.ErrDisplay. Import RX.Proofs.ErrShiftBase. Import RX.Proofs.ErrDisplayProofs. Local Open Scope list_scope.")]),
  "C11": dict(
    intro="C11 -- navigation and iterators agree with the tree: every parsed document is an arena (Arena' d t:\n   the pre-order encoding of a well-formed document tree, NavParse.v), and on every such arena (Arena', the form parse yields: up to u32::MAX nodes) each link accessor, axis, element variant, text/tail, root_element\n   and iterator of the model's API is the corresponding function of t, and the double-ended iterators\n   implement the deque specification for every sequence of operations.",
-   imports=["From RX.Spec Require Import Tree Deque.", "From RX.Proofs Require Import NavEnc NavLinks NavIter NavAxes NavElem NavParse.", "From RX.Proofs Require ApiViewAcc ApiView ApiViewProofs."],
+   imports=["From RX.Spec Require Import Tree Deque.", "From RX.Proofs Require Import NavEnc NavLinks NavIter NavAxes NavElem NavParse.", "From RX.Proofs Require ApiViewAcc ApiView ApiViewProofs.", "From RX.Spec Require CstFull CstFullS6 CstFullS7.", "From RX.Proofs Require CstNsView ApiUserCore ApiUserAcc ApiUserS7."],
    groups=[("ApiViewProofs.v", ["api_view_agrees", "api_view_defined"], "Import RX.Proofs.ApiViewAcc. Import RX.Proofs.ApiView. Import RX.Proofs.ApiViewProofs."),
+           ("ApiUserS7.v", ["user_nodes", "user_root_element", "user_children", "user_text", "user_comment", "user_pi"], "Import RX.Spec.CstFull. Import RX.Spec.CstFullS6. Import RX.Spec.CstFullS7. Import RX.Proofs.CstNsView. Import RX.Proofs.ApiViewAcc. Import RX.Proofs.ApiView. Import RX.Proofs.ApiUserCore. Import RX.Proofs.ApiUserAcc. Import RX.Proofs.ApiUserS7.", "CHECK"),
            ("NavLinks.v", ["table_ids", "nav_parent'", "nav_has_children'", "nav_first_child'", "nav_last_child'", "nav_prev_sibling'", "nav_next_sibling'", "nav_descendants'"]),
            ("NavIter.v", ["nav_children'", "children_deque'", "slice_deque"]),
            ("NavAxes.v", ["nav_ancestors'", "nav_next_siblings'", "nav_prev_siblings'", "nav_first_children'", "nav_last_children'"]),
@@ -139,14 +143,15 @@ TABLE = {
                           "nav_next_sibling_element'", "nav_first_element_child'", "nav_last_element_child'", "nav_root_element'",
                           "nav_root_element_none'", "nav_text_storage'", "nav_tail_storage'"])]),
  "C12": dict(
-   intro="C12 -- name-based lookups are the first match of the enumerated attributes / namespaces.",
-   imports=["From RX.Proofs Require Import LookupProofs."],
-   groups=[("LookupProofs.v", ["attribute_node_first_match", "has_attribute_iff", "attribute_is_value_of_node", "bare_name_no_namespace",
+   intro="C12 -- name-based lookups are the first match of the enumerated attributes / namespaces.  The user_* theorems\n   (Proofs/ApiUserS7.v) chain this with the capstone: for a rendered S7 document each lookup on the k-th node returns what the\n   WRITTEN document says (first attribute with that expanded name, first binding of the in-scope list computed by Spec/Scope.v).",
+   imports=["From RX.Proofs Require Import LookupProofs.", "From RX.Spec Require CstFull CstFullS6 CstFullS7.", "From RX.Proofs Require CstNsView ApiViewAcc ApiView ApiUserCore ApiUserAcc ApiUserS7."],
+   groups=[("ApiUserS7.v", ["user_tag_name", "user_has_tag_name", "user_attribute", "user_has_attribute", "user_lookup_namespace_uri", "user_default_namespace", "user_lookup_prefix"], "Import RX.Spec.CstFull. Import RX.Spec.CstFullS6. Import RX.Spec.CstFullS7. Import RX.Proofs.CstNsView. Import RX.Proofs.ApiViewAcc. Import RX.Proofs.ApiView. Import RX.Proofs.ApiUserCore. Import RX.Proofs.ApiUserAcc. Import RX.Proofs.ApiUserS7.", "CHECK"),
+           ("LookupProofs.v", ["attribute_node_first_match", "has_attribute_iff", "attribute_is_value_of_node", "bare_name_no_namespace",
                                "has_tag_name_spec", "has_tag_name_non_element", "lookup_namespace_uri_first", "default_namespace_is_lookup_none",
                                "lookup_prefix_xml", "lookup_prefix_first", "attr_eqb_spec"])]),
  "C13": dict(
    intro="C13 -- source ranges are valid and designate the construct they belong to.  For every parsed document\n   (entity-expanded nodes included): every node and attribute range is a valid slice of the input (start <=\n   end <= len, char boundaries), the root range is the whole input, every attribute lies strictly inside its\n   element's range with its qname sub-range inside it; for documents without a DOCTYPE a child's range lies\n   within its parent's and a node starts after its previous sibling ends.  Shape clauses, from the lexer\n   post-conditions: the range of a comment token is exactly '<!--' text '-->', of a PI token '<?' target ...\n   '?>', a start tag runs from '<' to its '>' and the name follows the '<', an end tag from '</' to '>';\n   text / CDATA ranges are the token's source.  Attribute sub-ranges (below the documented saturation limits):\n   the qname sub-range ends where the local name ends, the value sub-range is delimited by the same quote on\n   both sides, ends one byte before the attribute's end, equals a borrowed value's slice, and only whitespace and\n   one '=' separate it from the qname.  Shift: prepending whitespace to an input that starts with neither a BOM nor\n   an XML declaration yields the same document with every non-root range moved by exactly that length.\n   Whole documents on the fragment of Spec/Cst.v: the range of every node is exactly the span of its construct in\n   the rendering (spans c, CstRangeDefs.v: an element from its '<' to the '>' of its end or empty-element tag), the\n   root range is the whole input, attribute range / qname / value sub-ranges are exactly the written name-to-quote,\n   name and between-the-quotes spans (attr_spans c); hence the slice shapes C13 names (EXTRA below).",
-   imports=["From RX.Proofs Require Import LexerProofs NoPanicTokenizer RangeTokenizer RangeArena RangeInv RangeBuilder RangeParse RangeAttrLocal RangeAttrTok RangeAttrParse RangeShiftBase RangeShiftStream RangeShiftTokenizer RangeShiftBuilder RangeShiftParse RangeShiftFinal CstRangeDefs CstRangeMain CstRangeTDefs CstRangeTMain CstEntDoc CstRangeEDefs CstRangeEMain CstRangeEValid.", "From RX.Spec Require Cst CstText CstEnt CstFull CstFullS5.", "From RX.Proofs Require CstRangeFDefs CstRangeFS2 CstRangeGDefs CstRangeGS3 CstRangeG5Defs CstRangeG5.", "From RX.Spec Require CstFullS4 CstFullS6.", "From RX.Proofs Require CstRangeG6Defs CstRangeG6."],
+   imports=["From RX.Proofs Require Import LexerProofs NoPanicTokenizer RangeTokenizer RangeArena RangeInv RangeBuilder RangeParse RangeAttrLocal RangeAttrTok RangeAttrParse RangeShiftBase RangeShiftStream RangeShiftTokenizer RangeShiftBuilder RangeShiftParse RangeShiftFinal CstRangeDefs CstRangeMain CstRangeTDefs CstRangeTMain CstEntDoc CstRangeEDefs CstRangeEMain CstRangeEValid.", "From RX.Spec Require Cst CstText CstEnt CstFull CstFullS5.", "From RX.Proofs Require CstRangeFDefs CstRangeFS2 CstRangeGDefs CstRangeGS3 CstRangeG5Defs CstRangeG5.", "From RX.Spec Require CstFullS4 CstFullS6.", "From RX.Proofs Require CstRangeG6Defs CstRangeG6 ErrShiftSubFinal ErrShiftProlog."],
    groups=[("RangeParse.v", ["parse_ranges_valid", "parse_attr_ranges_inside", "parse_ranges_nest", "parse_ranges_siblings"]),
            ("RangeAttrParse.v", ["parse_attr_subranges"]), ("RangeShiftFinal.v", ["parse_shift_whitespace_partial"]),
            ("CstRangeMain.v", ["parse_render_ranges", "parse_render_attr_ranges"]),
@@ -156,12 +161,13 @@ TABLE = {
            ("CstRangeGS3.v", ["parse_render_ranges_f3"], "Import RX.Spec.CstFull. Import RX.Proofs.CstRangeFDefs. Import RX.Proofs.CstRangeGDefs. Import RX.Proofs.CstRangeGS3."),
            ("CstRangeG5.v", ["parse_render_ranges_f5", "parse_render_attr_ranges_f5"], "Import RX.Spec.CstFull. Import RX.Spec.CstFullS5. Import RX.Proofs.CstRangeFDefs. Import RX.Proofs.CstRangeFS2. Import RX.Proofs.CstRangeG5Defs. Import RX.Proofs.CstRangeG5."),
            ("CstRangeG6.v", ["parse_render_ranges_f6", "parse_render_attr_ranges_f6"], "Import RX.Spec.CstFull. Import RX.Spec.CstFullS4. Import RX.Spec.CstFullS6. Import RX.Proofs.CstRangeFDefs. Import RX.Proofs.CstRangeFS2. Import RX.Proofs.CstRangeG6Defs. Import RX.Proofs.CstRangeG6."),
+           ("ErrShiftProlog.v", ["ranges_move_with_prolog_whitespace"], "Import RX.Proofs.ErrShiftSubFinal. Import RX.Proofs.ErrShiftProlog."),
            ("RangeTokenizer.v", ["tokenizer_token_ranges"], "Local Notation token := Tokenizer.token."),
            ("LexerProofs.v", ["parse_comment_post", "parse_pi_post", "parse_cdata_post", "parse_text_post", "parse_element_tokens",
                               "parse_close_element_post"], "Local Notation token := Tokenizer.token.", "forall (text : bytes),")]),
  "C14": dict(
    intro="C14 -- text positions and error reports: text_pos_at is total on valid UTF-8, clamps, counts\n   rows by LF and columns in characters, stays in bounds and moves with inserted line breaks / spaces;\n   every Err returned by parse carries the position of an offset inside the input (or is one of the\n   seven position-less variants, which report 1:1), hence row / column are within the input.  Shift over a whole\n   parse: whitespace put in front of a document (no BOM / declaration) leaves the outcome unchanged -- an Ok result is\n   the same document with shifted offsets, an Err has the same variant and payload and is reported at the same place of\n   the document (offset + k), i.e. k spaces move the column of a row-1 error by k, k line breaks move the row by k.\n   The same for whitespace inserted at any insertion point of the prolog before a DOCTYPE (after the BOM / XML\n   declaration, after each comment or PI of the first Misc run; insertion_point is defined operationally and is\n   decidable by insertion_point_b): parse_err_shift_mid_partial, parse_ok_shift_mid_partial and the spaces / lines\n   corollaries (an error on the insertion point's row moves by k columns; k line breaks move the row by k).  And for\n   insertion points AFTER a DOCTYPE (between the DOCTYPE and the root, after later comments / PIs) when the DOCTYPE\n   records no general entity (parameter / external entities, ELEMENT / ATTLIST / NOTATION, comments and PIs inside the\n   subset are allowed): parse_err_shift_dtd, parse_ok_shift_dtd.",
-   imports=["From RX.Proofs Require Import PositionProofs ErrPosStream ErrPosTokenizer ErrPosParse ErrPayload RangeShiftBuilder ErrShiftBase ErrShiftFinal ErrShiftMidCore ErrShiftMidFinal ErrShiftDtdFinal ErrShiftEntFinal ErrShiftSubCont ErrShiftSubFinal.", "From RX Require GeneratedDisplay.", "From RX.Model Require ErrDisplay.", "From RX.Proofs Require ErrDisplayProofs."],
+   imports=["From RX.Proofs Require Import PositionProofs ErrPosStream ErrPosTokenizer ErrPosParse ErrPayload RangeShiftBuilder ErrShiftBase ErrShiftFinal ErrShiftMidCore ErrShiftMidFinal ErrShiftDtdFinal ErrShiftEntFinal ErrShiftSubCont ErrShiftSubFinal ErrShiftProlog.", "From RX Require GeneratedDisplay.", "From RX.Model Require ErrDisplay.", "From RX.Proofs Require ErrDisplayProofs."],
    groups=[("PositionProofs.v", ["text_pos_total_valid", "text_pos_clamped", "text_pos_on_boundary", "text_pos_bounds", "text_pos_shift_lines_valid",
                                  "text_pos_shift_spaces_valid", "text_pos_shift_lines_gen", "text_pos_shift_spaces_gen"]),
            ("ErrShiftFinal.v", ["parse_err_shift", "parse_ok_shift", "parse_err_shift_spaces", "parse_err_shift_lines"]),
@@ -169,6 +175,7 @@ TABLE = {
            ("ErrShiftDtdFinal.v", ["parse_err_shift_dtd", "parse_ok_shift_dtd", "parse_err_shift_dtd_spaces", "parse_err_shift_dtd_lines"]),
            ("ErrShiftEntFinal.v", ["parse_err_shift_ent", "parse_ok_shift_ent", "parse_err_shift_ent_spaces", "parse_err_shift_ent_lines"]),
            ("ErrShiftSubFinal.v", ["parse_err_shift_sub", "parse_ok_shift_sub", "parse_err_shift_sub_spaces", "parse_err_shift_sub_lines", "parse_err_shift_prolog"]),
+           ("ErrShiftProlog.v", ["parse_ok_shift_prolog"]),
            ("ErrPosTokenizer.v", ["tokenizer_errors_positioned"], "Local Notation token := Tokenizer.token."),
            ("ErrPosParse.v", ["token_errors_positioned", "parse_errors_positioned", "parse_error_in_bounds"]),
            ("ErrPayload.v", ["parse_error_payload_from_source"]),
@@ -203,14 +210,36 @@ TABLE = {
            ("FeatureGates.v", ["gated_fields_are_the_stripped_ones", "strip_node_only_range", "strip_attr_only_positions", "gated_statements", "std_gates"],
             "Import RX.GeneratedFeatures. Import RX.Proofs.FeatureGates. Local Open Scope string_scope.")]),
  "C17": dict(
-   intro="C17 -- node identity, equality, ordering: a node is the key (document address, id).",
-   imports=["From RX.Proofs Require Import OrderProofs."],
+   intro="C17 -- node identity, equality, ordering, hashing: a node is the key (document address, id).",
+   imports=["From RX.Proofs Require Import OrderProofs HashProofs."],
    groups=[("OrderProofs.v", ["node_eqb_iff", "node_cmp_eq_iff", "node_cmp_antisym", "node_cmp_trans", "node_cmp_same_doc", "node_cmp_groups",
                               "get_node_id_spec", "sorted_groups_documents"])]),
 }
 
 
 EXTRA = {
+ "C17": """
+(* the Hash clause: the words impl Hash for Node feeds the hasher (id, document address, NodeData address) are a
+   function of the node key and determine it, for any placement of the node vector (nodes_base) and any positive
+   element size: equal nodes hash equally under every Hasher; Proofs/HashProofs.v *)
+Theorem C17_equal_nodes_hash_equally :
+  forall (nodes_base : N -> N) (node_size : N) (x y : node_key),
+  node_eqb x y = true -> hash_words nodes_base node_size x = hash_words nodes_base node_size y.
+Proof. exact equal_nodes_hash_equally. Qed.
+Print Assumptions C17_equal_nodes_hash_equally.
+
+Theorem C17_hash_words_determine_node :
+  forall (nodes_base : N -> N) (node_size : N) (x y : node_key),
+  hash_words nodes_base node_size x = hash_words nodes_base node_size y -> node_eqb x y = true.
+Proof. exact hash_words_determine_node. Qed.
+Print Assumptions C17_hash_words_determine_node.
+
+Theorem C17_data_addr_injective_in_document :
+  forall (nodes_base : N -> N) (node_size : N), 0 < node_size ->
+  forall d i j : N, data_addr nodes_base node_size (d, i) = data_addr nodes_base node_size (d, j) -> i = j.
+Proof. exact data_addr_injective_in_document. Qed.
+Print Assumptions C17_data_addr_injective_in_document.
+""",
  "C13": """
 (* the slice shapes of C13, for every node of every parsed rendering of the Cst fragment *)
 Theorem C13_element_slice_shape :
@@ -349,6 +378,44 @@ Print Assumptions C05_normalize_attribute_chunks_top.
 }
 
 
+def checked_types(t, g):
+    """statements of theorems stated inside Sections (binders before the colon): asked from Coq itself with `Check`
+    in the environment of the property file (imports + the group's prelude); the printed, fully generalised type is
+    what gets pinned"""
+    import subprocess, tempfile, hashlib, json
+    path, names, prelude = g[0], g[1], g[2]
+    src = open(os.path.join(COQ, "Proofs", path)).read()
+    key = hashlib.md5((src + prelude + "|".join(names) + "|".join(t["imports"])).encode()).hexdigest()
+    cache_file = os.path.join(COQ, "..", "build", "pin_cache.json")
+    try:
+        cache = json.load(open(cache_file))
+    except (OSError, ValueError):
+        cache = {}
+    if key in cache:
+        return cache[key]
+    body = "\n".join(STD + t["imports"]) + "\nOpen Scope N_scope.\n" + prelude + "\nSet Printing Width 110.\nSet Printing Depth 1000.\n"
+    body += "\n".join('Check %s.' % n for n in names) + "\n"
+    with tempfile.NamedTemporaryFile("w", suffix=".v", dir="/tmp", delete=False) as f:
+        f.write(body)
+        tmp = f.name
+    out = subprocess.run(["coqc", "-Q", COQ, "RX", tmp], stdout=subprocess.PIPE, stderr=subprocess.STDOUT, cwd=COQ).stdout.decode()
+    for ext in (".v", ".vo", ".vok", ".vos", ".glob"):
+        try:
+            os.remove(tmp[:-2] + ext)
+        except OSError:
+            pass
+    res = {}
+    for n in names:
+        m = re.search(r"^%s\n     : (.*?)(?=^\S|\Z)" % re.escape(n), out, re.S | re.M)
+        if not m:
+            raise SystemExit("pin_props: Check %s failed:\n%s" % (n, out[-1500:]))
+        res[n] = m.group(1).rstrip()
+    cache[key] = res
+    os.makedirs(os.path.dirname(cache_file), exist_ok=True)
+    json.dump(cache, open(cache_file, "w"))
+    return res
+
+
 def gen(pid):
     t = TABLE[pid]
     o = ["(* %s\n   Statements are pinned here (copied verbatim from the proof files by tools/pin_props.py);\n   each is re-proved by `exact` and followed by Print Assumptions. *)" % t["intro"]]
@@ -360,10 +427,14 @@ def gen(pid):
         o.append("(* ---- Proofs/%s ---- *)" % path)
         if len(g) > 2:
             o.append("Module G%d.\n%s" % (gi, g[2]))
+        auto = checked_types(t, g) if (len(g) > 3 and g[3] == "CHECK") else None
         for name in names:
-            st = stmt(path, name)
-            if len(g) > 3:
-                st = g[3] + " " + st          # the statement is inside a Section: its variables become binders
+            if auto is not None:
+                st = auto[name]
+            else:
+                st = stmt(path, name)
+                if len(g) > 3:
+                    st = g[3] + " " + st          # the statement is inside a Section: its variables become binders
             o.append("Theorem %s_%s :\n  %s.\nProof. exact %s. Qed.\nPrint Assumptions %s_%s.\n" % (pid, name, st, name, pid, name))
             n += 1
         if len(g) > 2:
